@@ -1960,7 +1960,7 @@ theorem collectFwd_inv (m : MapIn) (mc : Nat) : ∀ (l : List (Nat × Nat)) (acc
 /-- what `new` fixes about the plan of one map. -/
 def PlanFacts (m : Option MapIn) (n2o : List (Nat × Nat)) (bypass : Bool) (p : MapPlan) : Prop :=
   (bypass = true ∧ m = none ∧ p.mapCount = 0 ∧ p.output = []) ∨
-  (∃ lastGid, scanBack m n2o.reverse none = .ok lastGid ∧
+  (¬ (bypass = true ∧ m = none) ∧ ∃ lastGid, scanBack m n2o.reverse none = .ok lastGid ∧
     (p.mapCount = match lastGid with
       | none => 0
       | some lg => (lg + 1) % 65536) ∧
@@ -1989,14 +1989,17 @@ theorem planNew_inv (m : Option MapIn) (n2o : List (Nat × Nat)) (glyphset : Lis
     simp only [Bool.and_eq_true, Option.isNone_iff_eq_none] at hb
     refine ⟨hinv, rfl, fun j hj => hj, Or.inl ⟨hb.1, hb.2, rfl, rfl⟩, ?_⟩
     intro _ hb2; rw [hb.1] at hb2; cases hb2
-  · simp only [] at h
+  · rename_i hnb0
+    have hexcl : ¬ (bypass = true ∧ m = none) := by
+      intro hc; apply hnb0; simp [hc.1, hc.2]
+    simp only [] at h
     split at h
     · cases h
     · -- nothing retained
       rename_i hscan
       simp only [pure, Except.pure, Except.ok.injEq, Prod.mk.injEq] at h
       obtain ⟨rfl, rfl⟩ := h
-      refine ⟨hinv, rfl, fun j hj => hj, Or.inr ⟨none, hscan, rfl, ?_, rfl⟩, ?_⟩
+      refine ⟨hinv, rfl, fun j hj => hj, Or.inr ⟨hexcl, none, hscan, rfl, ?_, rfl⟩, ?_⟩
       · cases m <;> rfl
       · intro hm _ hne
         subst hm
@@ -2012,7 +2015,7 @@ theorem planNew_inv (m : Option MapIn) (n2o : List (Nat × Nat)) (glyphset : Lis
             intro e; subst e; simp at hlast
           have hg := hgs hne
           refine ⟨?_, by simp [hsets], fun j hj => mem_bmAdd.mpr (Or.inl hj),
-            Or.inr ⟨some lg, hscan, rfl, rfl, rfl⟩, fun _ _ _ => mem_bmAdd.mpr (Or.inr rfl)⟩
+            Or.inr ⟨hexcl, some lg, hscan, rfl, rfl, rfl⟩, fun _ _ _ => mem_bmAdd.mpr (Or.inr rfl)⟩
           intro j
           simp only [mem_bmAdd]
           cases j with
@@ -2036,14 +2039,14 @@ theorem planNew_inv (m : Option MapIn) (n2o : List (Nat × Nat)) (glyphset : Lis
               · cases h1
             · intro h1; exact Or.inl h1
         · cases h
-      · rename_i mm hnb
+      · rename_i mm
         split at h
         · cases h
         · rename_i acc2 mi hcf
           simp only [pure, Except.pure, Except.ok.injEq, Prod.mk.injEq] at h
           obtain ⟨rfl, rfl⟩ := h
           have := collectFwd_inv mm _ n2o acc _ acc2 mi hinv (by simp) hcf
-          refine ⟨this.1, this.2.1, this.2.2, Or.inr ⟨some lg, hscan, rfl, rfl, rfl⟩, ?_⟩
+          refine ⟨this.1, this.2.1, this.2.2, Or.inr ⟨hexcl, some lg, hscan, rfl, rfl, rfl⟩, ?_⟩
           intro hm; cases hm
 
 theorem planRest_inv (n2o : List (Nat × Nat)) (glyphset : List Nat) (hgs : n2o ≠ [] → glyphset ≠ []) :
@@ -2173,6 +2176,177 @@ theorem serializeMaps_get : ∀ (ps : List MapPlan) (out : List (Option MapOut))
             rcases this.2 k q (by simpa using hq) with h1 | ⟨h1, mo', h2, h3⟩
             · exact Or.inl ⟨h1.1, by simpa using h1.2⟩
             · exact Or.inr ⟨h1, mo', h2, by simpa using h3⟩
+
+
+theorem bmFrom_eq_nil {s : List Nat} : bmFrom s = [] ↔ s = [] := by
+  constructor
+  · intro h
+    cases s with
+    | nil => rfl
+    | cons a s =>
+      have : a ∈ bmFrom (a :: s) := mem_bmFrom.mpr (by simp)
+      rw [h] at this; cases this
+  · intro h; subst h; rfl
+
+theorem ne_nil_iff_exists_mem {l : List Nat} : l ≠ [] ↔ ∃ x, x ∈ l := by
+  cases l with
+  | nil => simp
+  | cons a l => simp
+
+theorem remap_zero {p p' : MapPlan} {m : Option MapIn} {n2o : List (Nat × Nat)} {om : List Nat}
+    {ims : List (List Nat)} (h0 : p.mapCount = 0) (hout : p.output = [])
+    (h : remap p m n2o om ims = .ok p') : p'.output = [] := by
+  unfold remap at h
+  have : remapGo m p.mapCount om ims n2o [] 0 = .ok ([], 0) := by
+    cases n2o with
+    | nil => rfl
+    | cons x r => obtain ⟨a, b⟩ := x; simp [remapGo, h0, pure, Except.pure]
+  rw [this] at h
+  simp only [bind, Except.bind, pure, Except.pure, Except.ok.injEq] at h
+  rw [← h]
+
+/-- what a successful `HvarVvarSubsetPlan::new` provides. -/
+theorem subsetPlan_ok {vc : Nat} {maps : List (Option MapIn)} {n2o : List (Nat × Nat)}
+    {glyphset : List Nat} {retain : Bool} {sp : SubsetPlan}
+    (h : subsetPlan vc maps n2o glyphset retain = .ok sp) (hgs : n2o ≠ [] → glyphset ≠ []) :
+    0 < vc ∧ sp.innerMaps.length = vc ∧ sp.outerMap.Pairwise (· < ·) ∧
+    (∀ j, j ∈ sp.outerMap ↔ j < sp.innerMaps.length ∧ (sp.innerMaps.getD j []).length ≠ 0) ∧
+    (∀ (k : Nat) (m : Option MapIn), maps[k]? = some m →
+      ∃ p p', PlanFacts m n2o (k != 0) p ∧ remap p m n2o sp.outerMap sp.innerMaps = .ok p' ∧
+        sp.plans[k]? = some p') := by
+  unfold subsetPlan at h
+  by_cases hvc : vc = 0
+  · simp [hvc, throw, throwThe, MonadExceptOf.throw] at h
+  simp only [hvc, if_false] at h
+  cases maps with
+  | nil => simp [throw, throwThe, MonadExceptOf.throw] at h
+  | cons m0 ms =>
+  simp only [] at h
+  cases hp0 : planNew m0 n2o glyphset false ⟨[], List.replicate vc []⟩ with
+  | error e => rw [hp0] at h; cases h
+  | ok r0 =>
+  obtain ⟨p0, acc1⟩ := r0
+  rw [hp0] at h
+  simp only [] at h
+  cases hps : planRest n2o glyphset ms acc1 with
+  | error e => rw [hps] at h; cases h
+  | ok r1 =>
+  obtain ⟨ps, acc2⟩ := r1
+  rw [hps] at h
+  simp only [] at h
+  cases hplans : remapAll n2o (bmSort acc2.outerMap)
+      ((if (m0.isNone && retain) = true then
+          (acc2.innerSets.headD []).foldl bmAdd (bmFrom (n2o.map (·.2)))
+        else (setSubtract (acc2.innerSets.headD [])
+            (if m0.isNone = true then acc1.innerSets.headD [] else [])).foldl bmAdd
+          (bmFrom (if m0.isNone = true then acc1.innerSets.headD [] else []))) ::
+        acc2.innerSets.tail.map bmFrom) (p0 :: ps) (m0 :: ms) with
+  | error e => rw [hplans] at h; cases h
+  | ok plans =>
+  rw [hplans] at h
+  simp only [pure, Except.pure, Except.ok.injEq] at h
+  subst h
+  simp only []
+  -- invariants
+  have hinv0 : AccInv ⟨[], List.replicate vc []⟩ := by
+    intro j
+    have e : (List.replicate vc ([] : List Nat)).getD j [] = [] := by
+      rw [List.getD_eq_getElem?_getD, List.getElem?_replicate]
+      split <;> rfl
+    constructor
+    · intro hc; cases hc
+    · intro hc; exact absurd e hc
+  obtain ⟨hinv1, hlen1, _, hpf0, hzero1⟩ := planNew_inv m0 n2o glyphset false _ p0 acc1 hinv0 hgs hp0
+  obtain ⟨hinv2, hlen2, hmono2, hpslen, hpfs⟩ := planRest_inv n2o glyphset hgs ms acc1 ps acc2 hinv1 hps
+  have hl2 : acc2.innerSets.length = vc := by rw [hlen2, hlen1]; simp
+  obtain ⟨s0, ss, hsets⟩ : ∃ s0 ss, acc2.innerSets = s0 :: ss := by
+    cases hc : acc2.innerSets with
+    | nil => rw [hc] at hl2; simp at hl2; omega
+    | cons a b => exact ⟨a, b, rfl⟩
+  have hset0 : acc2.innerSets.headD [] = s0 := by rw [hsets]; rfl
+  have hin0 : 0 ∈ acc2.outerMap ↔ s0 ≠ [] := by
+    have := hinv2 0; rw [hsets] at this; simpa using this
+  refine ⟨by omega, by simp [hsets] at hl2 ⊢; omega, sorted_bmSort _, ?_, ?_⟩
+  · -- membership
+    intro j
+    rw [mem_bmSort]
+    cases j with
+    | zero =>
+      simp only [List.getD_cons_zero, List.length_cons, Nat.zero_lt_succ, true_and]
+      rw [hin0, hset0]
+      rw [show ∀ (l : List Nat), (l.length ≠ 0 ↔ l ≠ []) from fun l => by cases l <;> simp]
+      rw [ne_nil_iff_exists_mem, ne_nil_iff_exists_mem]
+      constructor
+      · rintro ⟨x, hx⟩
+        refine ⟨x, ?_⟩
+        split
+        · rw [mem_foldl_bmAdd]; exact Or.inr hx
+        · rw [mem_foldl_bmAdd, mem_bmFrom]
+          by_cases hxa : x ∈ (if m0.isNone = true then acc1.innerSets.headD [] else [])
+          · exact Or.inl hxa
+          · right; unfold setSubtract
+            exact List.mem_filter.mpr ⟨hx, decide_eq_true hxa⟩
+      · rintro ⟨x, hx⟩
+        split at hx
+        · rename_i hcond
+          simp only [Bool.and_eq_true, Option.isNone_iff_eq_none] at hcond
+          rw [mem_foldl_bmAdd, mem_bmFrom] at hx
+          rcases hx with hx | hx
+          · -- an old gid: the implicit advance map put subtable 0 into the outer map
+            have hne : n2o ≠ [] := by
+              intro e; subst e; simp at hx
+            have h0 := hmono2 0 (hzero1 hcond.1 rfl hne)
+            exact ne_nil_iff_exists_mem.mp (hin0.mp h0)
+          · exact ⟨x, hx⟩
+        · rw [mem_foldl_bmAdd, mem_bmFrom] at hx
+          rcases hx with hx | hx
+          · split at hx
+            · have h1 : acc1.innerSets.getD 0 [] ≠ [] := by
+                have : acc1.innerSets.headD [] = acc1.innerSets.getD 0 [] := by
+                  cases acc1.innerSets <;> rfl
+                rw [← this]; exact List.ne_nil_of_mem hx
+              have h0 := hmono2 0 ((hinv1 0).mpr h1)
+              exact ne_nil_iff_exists_mem.mp (hin0.mp h0)
+            · cases hx
+          · unfold setSubtract at hx
+            exact ⟨x, (List.mem_filter.mp hx).1⟩
+    | succ i =>
+      have hI := hinv2 (i + 1)
+      rw [hsets] at hI
+      simp only [List.getD_cons_succ] at hI
+      rw [hI, hsets]
+      simp only [List.tail_cons, List.getD_cons_succ, List.length_cons, List.length_map]
+      rw [List.getD_eq_getElem?_getD, List.getD_eq_getElem?_getD, List.getElem?_map]
+      by_cases hi : i < ss.length
+      · rw [List.getElem?_eq_getElem hi]
+        simp only [Option.map_some, Option.getD_some]
+        rw [show ∀ (l : List Nat), (l.length ≠ 0 ↔ l ≠ []) from fun l => by cases l <;> simp]
+        rw [ne_eq, ne_eq, bmFrom_eq_nil]
+        constructor
+        · intro h1; exact ⟨by omega, h1⟩
+        · intro h1; exact h1.2
+      · rw [List.getElem?_eq_none (by omega)]
+        simp
+  · -- the plans
+    have hlen : (p0 :: ps).length = (m0 :: ms).length := by simp [hpslen]
+    have hrem := remapAll_get n2o _ _ (p0 :: ps) (m0 :: ms) plans hplans hlen
+    intro k m hm
+    cases k with
+    | zero =>
+      simp at hm; subst hm
+      obtain ⟨p', h1, h2⟩ := hrem.2 0 p0 m0 (by simp) (by simp)
+      exact ⟨p0, p', by simpa using hpf0, h1, h2⟩
+    | succ k =>
+      have hmk : ms[k]? = some m := by simpa using hm
+      have hk : k < ps.length := by
+        rw [hpslen]
+        rcases Nat.lt_or_ge k ms.length with hc | hc
+        · exact hc
+        · rw [List.getElem?_eq_none hc] at hmk; cases hmk
+      obtain ⟨p', h1, h2⟩ := hrem.2 (k + 1) ps[k] m (by simp [hk]) hm
+      refine ⟨ps[k], p', ?_, h1, h2⟩
+      have := hpfs k m ps[k] hmk (by simp [hk])
+      simpa using this
 
 
 end FontVerif.SubsetHvar
